@@ -247,7 +247,21 @@ impl Driver for C11 {
         }
         let nm = names();
         for case in 0..60 {
-            let text = if case % 3 == 2 {
+            let text = if case == 58 {
+                // string literals with the escapes of the grammar, alone and in arrays
+                let pool = ["a\\nb", "q\\\"r", "t\\\\u", "\\u00e9x", "\u{e9}t\u{e9}", "tab\\t", "plain", "sl\\/ash", "e\u{301}", "two\n  lines", "end\n"];
+                let k = rng.gen_range(1..4);
+                let items: Vec<String> = (0..k).map(|_| format!("\"{}\"", pool[rng.gen_range(0..pool.len())])).collect();
+                let one = pool[rng.gen_range(0..pool.len())];
+                format!("min x + len(S) + sum(s in S) {{ 1 }}\ns.t.\n    x >= len(S)\nwhere\n    let S = [{}]\n    let one = \"{one}\"\ndefine\n    x as Real\n", items.join(", "))
+            } else if case == 59 {
+                // an index written as a quoted string next to a constant of that name: x_{"A"} is the variable x_A,
+                // x_A with `let A = 3` is x_3
+                let a = ["A", "B", "k", "n1"][rng.gen_range(0..4)];
+                let v = rng.gen_range(1..9);
+                let (c1, c2) = (rng.gen_range(1..6), rng.gen_range(1..6));
+                format!("max {c1} x_{{\"{a}\"}} + {c2} x_{a}\ns.t.\n    x_{{\"{a}\"}} <= 3\n    x_{a} + x_{{\"{a}\"}} <= 4\nwhere\n    let {a} = {v}\ndefine\n    x_{{\"{a}\"}} as NonNegativeReal\n    x_{a} as NonNegativeReal\n")
+            } else if case % 3 == 2 {
                 crate::gen_data::gen_prog(&mut rng).0.text_p()
             } else if case % 2 == 0 {
                 let toks = random_tokens(&mut rng, 8);
@@ -258,6 +272,9 @@ impl Driver for C11 {
                 let mut m = gen_model(&mut rng, stratum);
                 if rng.gen_bool(0.5) {
                     m.names = (0..m.n()).map(|i| ["x", "y", "z", "w"][i].to_string()).collect();
+                } else if rng.gen_bool(0.2) {
+                    // names that begin with underscores are plain names (simple_variable), not compound ones
+                    m.names = (0..m.n()).map(|i| ["_x", "__y", "_z1", "w"][i].to_string()).collect();
                 }
                 if rng.gen_bool(0.1) && m.sense != Sense::Satisfy {
                     // integral values beyond 2^63 can only be written as decimals
